@@ -168,6 +168,18 @@ impl Num {
             _ => false,
         }
     }
+    /// the absolute value as a double, by bit pattern: number leaves are compared as
+    /// correctly-rounded doubles (the source node's value against what each re-reader reads:
+    /// the Lean parser rounds the literal with exact integer arithmetic, `ratToFloat`)
+    pub fn bits_abs(&self) -> Num {
+        let v = match self {
+            Num::Dec(v) | Num::DecExp(v, _, _) => v.abs(),
+            Num::Hex(v, _) | Num::Bin(v, _) => *v as f64,
+            Num::Exact(m, e) => format!("{}e{}", m, e).parse::<f64>().unwrap_or(f64::NAN),
+            Num::Other(b) => f64::from_bits(*b).abs(),
+        };
+        Num::Other(v.to_bits())
+    }
     /// the value as an exact decimal (absolute value)
     pub fn exact_abs(&self) -> Num {
         match self {
@@ -752,9 +764,9 @@ pub fn norm_expr(e: &Ex) -> Ex {
         Ex::Nil | Ex::True | Ex::False | Ex::Varargs | Ex::Str(_) | Ex::Id(_) => e.clone(),
         Ex::Num(num) => {
             if num.is_negative() {
-                Ex::Un(1, Box::new(Ex::Num(num.exact_abs())))
+                Ex::Un(1, Box::new(Ex::Num(num.bits_abs())))
             } else {
-                Ex::Num(num.exact_abs())
+                Ex::Num(num.bits_abs())
             }
         }
         Ex::Paren(x) => Ex::Paren(Box::new(norm_expr(x))),
@@ -866,4 +878,70 @@ fn h2_blk_body(b: &Blk, ex: &dyn Fn(&Ex) -> bool, blk: &dyn Fn(&Blk) -> bool) ->
         Some(Last::Return(v)) => v.iter().any(ex),
         _ => false,
     }
+}
+
+// ---------------------------------------------------------------- trace shape
+
+/// number of calls with a tuple argument list `( ... )` in the tree (each must be opened by
+/// `merge_char('(')` in the dense generator, which keeps the `(` on the callee's line)
+pub fn count_tuple_arguments(b: &Blk) -> usize {
+    fn entries(t: &[Entry]) -> usize {
+        t.iter()
+            .map(|e| match e {
+                Entry::Val(v) | Entry::Fld(_, v) => ex(v),
+                Entry::Idx(k, v) => ex(k) + ex(v),
+            })
+            .sum()
+    }
+    fn ty(t: &Ty) -> usize {
+        // only `typeof(e)` holds expressions
+        match t {
+            Ty::TypeOf(e) => ex(e),
+            _ => 0,
+        }
+    }
+    fn func(f: &Func) -> usize {
+        count_tuple_arguments(&f.body)
+    }
+    fn ex(e: &Ex) -> usize {
+        match e {
+            Ex::Nil | Ex::True | Ex::False | Ex::Varargs | Ex::Str(_) | Ex::Id(_) | Ex::Num(_) => 0,
+            Ex::Paren(x) | Ex::Un(_, x) | Ex::Field(x, _) => ex(x),
+            Ex::Cast(x, t) => ex(x) + ty(t),
+            Ex::Bin(_, l, r) | Ex::Index(l, r) => ex(l) + ex(r),
+            Ex::Call(p, _, a) => {
+                ex(p)
+                    + match a {
+                        Args::Tuple(v) => 1 + v.iter().map(ex).sum::<usize>(),
+                        Args::Str(_) => 0,
+                        Args::Table(t) => entries(t),
+                    }
+            }
+            Ex::Func(f) => func(f),
+            Ex::Table(t) => entries(t),
+            Ex::IfExp(c, r, br, e) => ex(c) + ex(r) + ex(e) + br.iter().map(|(a, b)| ex(a) + ex(b)).sum::<usize>(),
+        }
+    }
+    let exs = |v: &Vec<Ex>| v.iter().map(ex).sum::<usize>();
+    b.stmts
+        .iter()
+        .map(|s| match s {
+            St::Assign(a, v) => exs(a) + exs(v),
+            St::Local(_, v) | St::LocalT(_, v) => exs(v),
+            St::TypeDecl(..) => 0,
+            St::Do(b) => count_tuple_arguments(b),
+            St::CallSt(c) => ex(c),
+            St::Compound(_, a, b) => ex(a) + ex(b),
+            St::Function(_, _, f) | St::LocalFn(_, f) => func(f),
+            St::GFor(_, e, b) => exs(e) + count_tuple_arguments(b),
+            St::NFor(_, a, b2, s, body) => ex(a) + ex(b2) + s.as_ref().map_or(0, ex) + count_tuple_arguments(body),
+            St::If(br, e) => br.iter().map(|(c, b)| ex(c) + count_tuple_arguments(b)).sum::<usize>() + e.as_ref().map_or(0, count_tuple_arguments),
+            St::Repeat(b, c) => count_tuple_arguments(b) + ex(c),
+            St::While(c, b) => ex(c) + count_tuple_arguments(b),
+        })
+        .sum::<usize>()
+        + match &b.last {
+            Some(Last::Return(v)) => exs(v),
+            _ => 0,
+        }
 }
